@@ -162,6 +162,26 @@ def run_seg(c):
     if np.linalg.matrix_rank(np.stack([u, w])) < 2:
         raise Skip("degenerate frame")
     e3 = lambda p: o + float(p[0]) * u + float(p[1]) * w  # noqa: E731
+    if what == "seg_seg3" and mode in ("T", "touch_endpoint") and c["skew"]:
+        # collections of 3D segments mixing a skew pair with pairs that really meet
+        nrm = np.cross(u, w)
+        res = X.seg_seg_intersection(a, b, cc, d)
+        if res[0] == "overlap":
+            raise Skip("overlap")
+        sh = np.array([3.0, -2.0, 5.0])
+        A1 = PointCollection(np.stack([np.append(e3(a), 1), np.append(e3(a), 1), np.append(e3(a) + sh, 1)]))
+        B1 = PointCollection(np.stack([np.append(e3(b), 1), np.append(e3(b), 1), np.append(e3(b) + sh, 1)]))
+        C1 = PointCollection(np.stack([np.append(e3(cc), 1), np.append(e3(cc) + nrm, 1), np.append(e3(cc) + sh, 1)]))
+        D1 = PointCollection(np.stack([np.append(e3(d), 1), np.append(e3(d) + 2 * nrm, 1), np.append(e3(d) + sh, 1)]))
+        M = np.stack([np.append(e3(a), 1), np.append(e3(b), 1), np.append(e3(cc) + nrm, 1), np.append(e3(d) + 2 * nrm, 1)])
+        if abs(np.linalg.det(M)) < 0.5:
+            raise Skip("middle pair not skew")
+        r, f = call("seg_seg3:mixed-collection", SegmentCollection(A1, B1).intersect, SegmentCollection(C1, D1))
+        if f:
+            return [f]
+        exp = [e3(res[1]), e3(res[1]) + sh] if res[0] == "point" else []
+        compare(ck, list(r), exp, f"seg_seg3:mixed-collection:{'hit' if exp else 'miss'}", 1e-6)
+        return ck.result()
     if what == "seg_seg3":
         nrm = np.cross(u, w)
         s1 = Segment(P(e3(a)), P(e3(b)))
